@@ -435,6 +435,7 @@ def known_atoms(fn, node):
             dec(e["left"], True)
             dec(e["right"], True)
             return
+        _NODES[s(e)] = e
         out[s(e)] = pol
     for c, pol in known_conditions(fn, node):
         e = _NODES.get(c)
